@@ -76,6 +76,18 @@ def roots():
         m = sym.msg(ids, ROOT_MSG, False, [sym.field(("ref", b["id"]), "body", 2), sym.field(("ref", a["id"]), "head", 1), sym.field(("uint", 3), "crc", 9)])
         return sym.schema([a, b, m])
 
+    def r_deep(ids):
+        mode = sym.enum(ids, "Mode", 2, [("MODE_A", 0), ("MODE_B", 3)])
+        unit = sym.msg(ids, "Unit", False, [sym.field(("uint", 2), "u", 1)])
+        other = sym.msg(ids, "Other", False, [sym.field(("ref", mode["id"]), "m", 1), sym.field(("ref", unit["id"]), "u", 2)])
+        kind = sym.enum(ids, "Kind", 3, [("KIND_A", 0), ("KIND_B", 5)])
+        cell = sym.msg(ids, "Cell", False, [sym.field(("int", 5), "c", 1)])
+        inner = sym.msg(ids, "Inner", False, [sym.field(("ref", kind["id"]), "k", 1), sym.field(("ref", cell["id"]), "cell", 2), sym.field(("uint", 2), "p", 3)])
+        m = sym.msg(ids, ROOT_MSG, False, [kind, cell, inner, sym.field(("ref", inner["id"]), "one", 1), sym.field(sym.arr(("ref", inner["id"]), 2), "two", 2),
+                                            sym.field(("bool",), "z", 3)])
+        return sym.schema([mode, unit, other, m])
+
+    add("deep", r_deep)
     add("flat", r_flat)
     add("enum_alias", r_enum_alias)
     add("nested", r_nested)
@@ -99,6 +111,27 @@ def successors(state):
     def emit(ev, ns, st=style_i):
         return (ev, (ns, st))
 
+    # 1b. rename a nested definition to the name of an outer definition that is not used inside
+    #     the enclosing message (legal shadowing: the innermost definition keeps winning)
+    tops = {}
+    for stem, d, cont, i, path in sym.all_defs(s):
+        if not path and stem == s["main"] and d["kind"] in ("msg", "enum"):
+            tops[d["name"]] = d
+    for stem, d, cont, i, path in sym.all_defs(s):
+        if path and stem == s["main"] and d["kind"] in ("msg", "enum"):
+            outer = [x for x in s["files"][stem]["defs"] if x["name"] == path[0]][0]
+            used_inside = set(sym.refs_of(outer))
+            for tname, td in tops.items():
+                if tname == d["name"] or tname == path[0] or td["kind"] != d["kind"]:
+                    continue
+                if set(sym.ids_in(td)) & used_inside:
+                    continue
+                if any(x["name"] == tname for x in cont if x["kind"] != "field") or any(x["kind"] == "field" and x["name"] == tname for x in cont):
+                    continue
+                ns = sym.clone(s)
+                _, d2, _, _, _ = sym.find(ns, d["id"])
+                d2["name"] = tname
+                yield emit(("rename_shadow", d["name"], tname), ns)
     # 1. renames
     seen_kinds = set()
     for stem, d, cont, i, path in sym.all_defs(s):
@@ -197,7 +230,8 @@ def successors(state):
                 for stem2, d2, _, _, p2 in sym.all_defs(s):
                     if p2 and p2[0] == path[0] and stem2 == stem:
                         outer_ids.add(d2["id"])
-                if not (set(sym.refs_of(d)) & outer_ids - set(sym.ids_in(d))):
+                top_names = set(x["name"] for x in s["files"][stem]["defs"])
+                if d["name"] not in top_names and not (set(sym.refs_of(d)) & outer_ids - set(sym.ids_in(d))):
                     ns = sym.clone(s)
                     stem2, d2, cont2, i2, _ = sym.find(ns, d["id"])
                     del cont2[i2]
@@ -408,7 +442,7 @@ def main(pid, tier):
     acc.merge(run_units(units(tier), run_unit, maxtasks=2))
     c = acc.counters
     g = []
-    for need in ("rename", "rename_members", "rename_fields", "reorder_fields", "renumber", "introduce_alias", "inline_alias", "swap_definitions",
+    for need in ("rename", "rename_shadow", "rename_members", "rename_fields", "reorder_fields", "renumber", "introduce_alias", "inline_alias", "swap_definitions",
                  "lift_to_top", "nest_into", "move_to_import", "capacity_constant", "style", "comments"):
         if acc.classes.get("rewrite:" + need, 0) < 1:
             g.append("rewrite %s never applied" % need)
